@@ -1,6 +1,6 @@
 """run every translator gen/*.py: generate(repo) -> {GenModuleName: lean text}"""
 import glob, importlib, os, sys, traceback
-from harness.fw import REPO, VERIF, Check, build_lock
+from harness.fw import REPO, VERIF, Check, build_lock, record_gen_modules
 def main():
     rc = 0
     ck = Check("setup", "quick", 0)
@@ -16,6 +16,7 @@ def main():
             with build_lock():
                 for n, t in files.items():
                     ck.write_gen(n, t)
+                record_gen_modules(name, list(files))
             print(f"gen/{name}.py: {', '.join(files)}")
         except Exception:
             traceback.print_exc(); rc = 1
